@@ -502,3 +502,175 @@ impl Scenario for C10Share {
     })
   }
 }
+
+// -------------------------------------------------------------- c17.threads
+
+#[derive(Clone, Debug, Serialize, Deserialize)]
+pub struct ICase {
+  root: Node,
+  n_hot: usize,
+  /// emitter script
+  emits: Vec<(usize, In)>,
+  /// number of is_closed() samples taken by the sampling thread
+  samples: usize,
+  workers: usize,
+  sched: SchedSpec,
+}
+
+/// is_closed() sampled from one thread while another emits into a _threads
+/// pipeline whose tasks run on pool workers.
+pub struct C17Threads;
+impl Scenario for C17Threads {
+  fn name(&self) -> &'static str {
+    "c17.threads"
+  }
+  fn weight(&self) -> usize {
+    1
+  }
+  fn components(&self) -> (&'static [&'static str], &'static [&'static str]) {
+    (&["is_closed() of ZipSubscription / MultiSubscriptionThreads / TaskHandle / SubscriberThreads read concurrently with emissions and task completions"], &["OS thread scheduling (baton), pool workers, timer, clock (sim)"])
+  }
+  fn generate(&self, rng: &mut Rng, _tier: Tier) -> Value {
+    let n_hot = 1;
+    // no flattening here: asking a merge_all composite from a foreign thread is
+    // outside what C17 states (and C10 does not list is_closed among its operations)
+    let cfg = GenCfg { max_depth: 2, n_hot, sched_weight: 4, exclude: vec!["GroupFlat", "Share"], allow_flat: false, producer_leaves: false };
+    let root = loop {
+      let r = gen_node(rng, &cfg, 0);
+      if r.valid(0) && r.size() <= 5 && r.op_names().iter().any(|n| n == "Hot") {
+        break r;
+      }
+    };
+    let mut emits = Vec::new();
+    for _ in 0..rng.range(1, 3) {
+      emits.push((0usize, In::Next));
+    }
+    if rng.chance(3, 4) {
+      emits.push((0, if rng.chance(1, 4) { In::Err } else { In::Complete }));
+    }
+    let strategy = match rng.below(3) {
+      0 => Strategy::Random,
+      1 => Strategy::Seq { den: 3 },
+      _ => Strategy::Pct { d: rng.range(1, 3) as u8, k: 60 },
+    };
+    serde_json::to_value(ICase { workers: if root.uses_scheduler() { rng.range(1, 2) } else { 0 }, root, n_hot, emits, samples: rng.range(2, 4), sched: SchedSpec::Seeded { seed: rng.next_u64(), strategy } }).unwrap()
+  }
+  fn run(&self, case: &Value) -> Result<Outcome, String> {
+    let case: ICase = serde_json::from_value(case.clone()).map_err(|e| e.to_string())?;
+    fn has_flat(n: &Node) -> bool {
+      match n {
+        Node::Flat { .. } => true,
+        Node::U(_, s) => has_flat(s),
+        Node::B(_, a, b) => has_flat(a) || has_flat(b),
+        _ => false,
+      }
+    }
+    if case.n_hot != 1 || !case.root.valid(0) || case.root.size() > 8 || has_flat(&case.root) || case.emits.len() > 8 || case.samples > 8 || case.workers > 3 || (case.root.uses_scheduler() && case.workers == 0) {
+      return Err("bad shape".into());
+    }
+    let shr = Shared::new();
+    let w = World::with_shared(shr.clone());
+    let log = ProbeLog::new(true);
+    let counters = Arc::new(Counters::default());
+    let hots: Vec<SubjectThreads<Val, E>> = vec![SubjectThreads::default()];
+    let ts = TSim::new(shr.clone(), &case.sched, 2, case.workers, 30_000);
+    let env = EnvS { hots: hots.clone(), counters };
+    let handle = ts.with_pool(|| std::panic::catch_unwind(std::panic::AssertUnwindSafe(|| build_shared(&case.root, &env).actual_subscribe(Probe(log.clone())))));
+    let handle = match handle {
+      Ok(h) => Arc::new(Mutex::new(Some(h))),
+      Err(p) => return Err(format!("panic while subscribing: {}", panic_message(&*p))),
+    };
+    let samples: Arc<Mutex<Vec<(u64, bool)>>> = Arc::new(Mutex::new(Vec::new()));
+    let mut bodies: Vec<Body> = Vec::new();
+    {
+      let hots = hots.clone();
+      let emits = case.emits.clone();
+      bodies.push(Box::new(move || {
+        let mut n = 0i64;
+        for (_, ev) in &emits {
+          match ev {
+            In::Next => {
+              n += 1;
+              hots[0].clone().next(Val::I(n))
+            }
+            In::Err => hots[0].clone().error(1),
+            In::Complete => hots[0].clone().complete(),
+          }
+          harness_yield("between-ops");
+        }
+      }));
+    }
+    {
+      let handle = handle.clone();
+      let samples = samples.clone();
+      let k = case.samples;
+      bodies.push(Box::new(move || {
+        for _ in 0..k {
+          harness_yield("before-sample");
+          let g = handle.lock().unwrap();
+          if let Some(h) = g.as_ref() {
+            let c = h.is_closed();
+            let st = shared().stamp();
+            samples.lock().unwrap().push((st, c));
+          }
+          drop(g);
+          harness_sleep_ms(1);
+        }
+      }));
+    }
+    let rep = ts.run(bodies);
+    let recs = log.records();
+    let smp = samples.lock().unwrap().clone();
+    let site = case.root.op_names().join("+");
+    let mut violation = common_violation("c17", &TCase { root: case.root.clone(), n_hot: 1, threads: vec![], workers: case.workers, sched: case.sched.clone() }, &TRun { recs: recs.clone(), overlap: false, cut: None, rep: rep.clone(), sim_ns: 0 });
+    if violation.is_none() {
+      if let Some((s, _)) = smp.iter().find(|(_, c)| *c) {
+        if smp.iter().any(|(st, c)| *st > *s && !*c) {
+          violation = Some(Violation { rule: "c17.closed-then-open".into(), site: site.clone(), detail: format!("samples {:?}: is_closed() returned true and later false", smp) });
+        } else if let Some(r) = recs.iter().find(|r| r.seq > *s) {
+          violation = Some(Violation {
+            rule: "c17.delivery-after-closed".into(),
+            site: site.clone(),
+            detail: format!("is_closed() returned true (stamp {}) on the sampling thread, yet {} was delivered later (stamp {}, thread {})", s, fmt_ev(&r.ev), r.seq, r.tid),
+          });
+        }
+      }
+    }
+    let mut resolved = case.clone();
+    resolved.sched = SchedSpec::Explicit(rep.decisions.clone());
+    let mut h = rep.trace_hash;
+    for r in &recs {
+      h = hash_mix(h, hash_str(&fmt_ev(&r.ev)) ^ (r.tid as u64) << 32);
+    }
+    for (_, c) in &smp {
+      h = hash_mix(h, *c as u64 + 1);
+    }
+    let sample = format!(
+      "{} emits={:?} workers={} decisions={} => samples={:?} probe=[{}]",
+      serde_json::to_string(&case.root).unwrap_or_default(),
+      case.emits,
+      case.workers,
+      rep.decisions.len(),
+      smp.iter().map(|(_, c)| *c).collect::<Vec<_>>(),
+      recs.iter().map(|r| fmt_ev(&r.ev)).collect::<Vec<_>>().join(" ")
+    );
+    let sim = shr.now();
+    let _ = std::panic::catch_unwind(std::panic::AssertUnwindSafe(|| {
+      drop(handle);
+      drop(hots);
+      drop(env);
+      drop(w);
+    }));
+    Ok(Outcome {
+      violation,
+      trace_hash: h,
+      nontrivial: rep.multi_choice > 0,
+      sim_ns: sim,
+      steps: rep.steps,
+      faults: vec![("preemption_at_lock_point", rep.preemptions), ("lock_contention", rep.contentions)],
+      reach: vec![("is_closed_true_sampled_concurrently", smp.iter().any(|(_, c)| *c) as u64)],
+      resolved: Some(serde_json::to_value(resolved).unwrap()),
+      sample,
+    })
+  }
+}
